@@ -9,15 +9,27 @@ from vlib import MachineryError, log, REPO
 
 
 def replay(ctx, path):
+    """./check Cxx --replay <file>: re-execute one recorded case on the code built from /repo's current tree."""
     r = json.load(open(path))
     case = os.path.join(ctx.scratch, "replay.json")
-    json.dump(r["replay"], open(case, "w"))
-    res = ctx.vh("replay", case, allow_fail=True)
-    print(json.dumps({k: v for k, v in res.items() if not k.startswith("_")}, indent=1)[:6000])
+    json.dump(r.get("replay", r), open(case, "w"))
+    p = subprocess.run([ctx.vh_path, "replay", case], capture_output=True, text=True, cwd=ctx.scratch)
+    res = None
+    for line in p.stdout.splitlines():
+        if line.startswith("RESULT "):
+            res = json.loads(line[7:])
+        else:
+            print(line[:2000])
+    if res is None or res.get("error"):
+        print("replay not possible: %s" % ((res or {}).get("error") or p.stderr[-500:]))
+        return 2
     if res.get("n_mismatch", 0) > 0:
+        for m in res["mismatches"]:
+            print("still contradicts the specification: " + m["what"][:500])
         print("VIOLATION property=%s replay=%s" % (ctx.prop, path))
         return 1
-    return 0 if not res.get("error") else 2
+    print("the recorded case no longer contradicts its expectation on this tree")
+    return 0
 
 
 def validate_trace(ctx, module, trace_name, trace_path, expect_reject=False, workers=1, timeout=900):
@@ -93,7 +105,8 @@ def run_C12(ctx):
     ctx.cov["rule"] = ("G: one case per Feed edge of the byte-level scanner model over all tapes assembled from the chunk menu "
                        "(12 single bytes of every class the scanner distinguishes, 30 keywords, a response code, 4 parameters, 4 bodies) up to MaxLen bytes; "
                        "expectation = specification's run to end of file (type, begin, end of every lexeme; error index). "
-                       "Non-trivial = distinct (outcome, error class, lexeme shape, tape length).")
+                       "V: the real scanner on whole corpus files (every 4th quick / all thorough) and seeded mutations of them (<= 6 000 bytes), logged with the body extents the dependency accepted and re-executed by Scanner.tla (Trace_Scan.tla): same lexemes, same error index. "
+                       "Non-trivial = distinct (outcome, error class, lexeme shape, tape length) / files with more than 3 lexemes.")
     ctx.assumptions += ["extent and validity of schema / enum bodies are decided by jsight-schema-core Len() (trusted oracle: pool bodies with known length)"]
     cfg = "MC_C12_quick.cfg" if ctx.quick else "MC_C12_thorough.cfg"
     r = ctx.tlc("MC_C12", cfg=cfg, timeout=3000)
@@ -102,6 +115,21 @@ def run_C12(ctx):
     ctx.cov["exhaustive"] = True
     st = ctx.vh("scan-replay", r.out, "selftest")
     ctx.selftest(st["n_mismatch"] == st["cases"], "C12 G: every corrupted expectation is reported")
+    # V: the real scanner on whole corpus files and mutations of them, judged by Scanner.tla
+    tp = os.path.join(ctx.scratch, "trace_scan.ndjson")
+    rec = ctx.vh("scan-record", REPO, tp, 4 if ctx.quick else 1, 1 if ctx.quick else 3, ctx.seed)
+    ctx.absorb(rec, "V:scan-record")
+    ok, tr = validate_trace(ctx, "Trace_Scan", "trace_scan.ndjson", tp, timeout=3000)
+    if not ok:
+        ctx.violation("c12:trace-rejected", "a run of the real scanner on a whole file is not a behaviour of Scanner.tla (record %d of %d)" % (tr.depth, rec["extra"]["logged"]),
+                      {"kind": "scan-trace", "record": tr.depth, "seed": ctx.seed})
+    else:
+        ctx.cov["traces_validated_against_impl"] += rec["extra"]["logged"]
+    tp2 = os.path.join(ctx.scratch, "sc", "trace_scan.ndjson")
+    os.makedirs(os.path.dirname(tp2))
+    ctx.vh("scan-record", REPO, tp2, 200, 0, ctx.seed, "corrupt")
+    ok2, _ = validate_trace(ctx, "Trace_Scan", "trace_scan.ndjson", tp2, expect_reject=True)
+    ctx.selftest(not ok2, "C12 V: a logged lexeme with a shifted end is rejected")
 
 
 # ------------------------------------------------------------------------ C10
